@@ -597,3 +597,51 @@ def cache_5(ctx, rep):
                 rep.ob('CACHE-5', CACHE, f.qual, norm(n), ok,
                        'cache file opened with mode %r outside the writer' % mode)
     rep.minimum('CACHE-5', 2)
+
+
+# ---------------------------------------------------------------------------
+# EXC-2: what comes out of pickle.load is an entry before it is used as one
+# ---------------------------------------------------------------------------
+def exc_2(ctx, rep):
+    rep.rule('EXC-2', 'the object returned by pickle.load is used as a cache entry (attribute access, stored in the in-memory '
+                      'cache, returned) only where an isinstance test against the entry class holds, or inside a try whose '
+                      'handler absorbs Exception: a damaged or foreign file can be a valid pickle of anything')
+    from ..facts import facts_at
+    import re as _re
+    prog = ctx.prog
+    n_uses = 0
+    for f in prog.mod(CACHE).funcs.values():
+        loaded = set()
+        for n in walk_own(f.node):
+            if isinstance(n, ast.Assign) and isinstance(n.value, ast.Call) and norm(n.value.func) in ('pickle.load', 'pickle.loads'):
+                for t in n.targets:
+                    if isinstance(t, ast.Name):
+                        loaded.add(t.id)
+        for name in sorted(loaded):
+            for n in walk_own(f.node):
+                if not (isinstance(n, ast.Name) and n.id == name and isinstance(n.ctx, ast.Load)):
+                    continue
+                par = getattr(n, '_parent', None)
+                # the isinstance test itself
+                if isinstance(par, ast.Call) and norm(par.func) == 'isinstance':
+                    continue
+                n_uses += 1
+                checked = any(positive and _re.fullmatch(r'isinstance\(%s, [\w.]+\)' % _re.escape(name), text)
+                              for text, positive in facts_at(n, f.node))
+                # inside a try body whose handlers absorb Exception
+                covered = False
+                child, p = n, getattr(n, '_parent', None)
+                while p is not None and p is not f.node:
+                    if isinstance(p, ast.Try) and any(child is b or child in ast.walk(b) for b in p.body):
+                        for h in p.handlers:
+                            if any(is_subclass('Exception', c) for c in handler_classes(h)):
+                                covered = True
+                    child, p = p, getattr(p, '_parent', None)
+                stmt = n
+                while not isinstance(stmt, ast.stmt):
+                    stmt = stmt._parent
+                rep.ob('EXC-2', CACHE, f.qual, 'use of unpickled %s in `%s`' % (name, head(stmt)), checked or covered,
+                       'the unpickled object is used as an entry without a type test and outside a handler for Exception: a '
+                       'cache file that is a valid pickle of something else (b"N." is None) makes parse() raise AttributeError',
+                       reason='isinstance test holds here' if checked else 'inside a try that absorbs Exception')
+    rep.minimum('EXC-2', 2)
